@@ -406,12 +406,13 @@ func driveCallTracer(seed uint64, n int, size int, em *Emitter) {
 		for _, flat := range []bool{false, true} {
 			onlyTop := !flat && r.Chance(20)
 			incl := flat && r.Bool()
+			parity := flat && r.Chance(40)
 			name, cfg := "callTracer", fmt.Sprintf(`{"onlyTopCall":%v}`, onlyTop)
 			if flat {
-				name, cfg = "flatCallTracer", fmt.Sprintf(`{"includePrecompiles":%v}`, incl)
+				name, cfg = "flatCallTracer", fmt.Sprintf(`{"includePrecompiles":%v,"convertParityErrors":%v}`, incl, parity)
 			}
 			em.Reset(fmt.Sprintf("calltracer-%d-%d-%s", seed, i, name))
-			em.Op("-", fmt.Sprintf("EC %s %s %s", b01(flat), b01(onlyTop), b01(incl)), "ok")
+			em.Op("-", fmt.Sprintf("EC %s %s %s %s", b01(flat), b01(onlyTop), b01(incl), b01(parity)), "ok")
 			tr, err := tracers.DefaultDirectory.New(name, &tracers.Context{}, json.RawMessage(cfg))
 			if err != nil {
 				panic(err)
